@@ -142,7 +142,7 @@ def model_runs(tier):
 from .basic import C14_CLAUSES as _BASIC_CLAUSES  # noqa: E402
 
 CHECK = PropertyCheck(
-    attached=(("rv.drivers.basic", _BASIC_CLAUSES, "medium"),),
+    attached=(("rv.drivers.basic", _BASIC_CLAUSES, "medium"), ("rv.drivers.c15", ("exit_code_expected",), "medium")),
     whole_run_clauses=('results_and_transformed_results_do_not_correspond', 'budget_exceeded', 'evaluation_after_budget_exhausted', 'spurious_TOO_FEW_REALIZATIONS', 'failure_not_reported_by_exit_code', 'spurious_MAX_FUNCTIONS_REACHED'),
     prop="C14", trace_module="Trace_C14", drive=drive, model_runs=model_runs,
     rule=("TLC model-checks OptStep.tla (budget respected, TOO_FEW iff a delivered evaluation failed, failing results delivered, "
